@@ -4,8 +4,10 @@ package jobs
 
 import (
 	"context"
+	"encoding/json"
 	"errors"
 	"fmt"
+	"sort"
 	"sync"
 	"time"
 
@@ -352,4 +354,28 @@ func (s *Scheduler) VerifTriggeredJobs(cfg *JobConfiguration) ([]*VerifHandledJo
 		out = append(out, &VerifHandledJob{j: j, s: s})
 	}
 	return out, nil
+}
+
+// VerifScheduledJobIDs lists the job ids this scheduler has registered with cron (sorted).
+func (s *Scheduler) VerifScheduledJobIDs() []string {
+	var out []string
+	for id, entries := range s.Runner.scheduledJobs {
+		if len(entries) > 0 {
+			out = append(out, id)
+		}
+	}
+	sort.Strings(out)
+	return out
+}
+
+// VerifHistoryJSON renders the stored run results (start / end instants removed: they are per run, and
+// kept as they are across a restart anyway - they are compared as part of the raw projection).
+func (s *Scheduler) VerifHistoryJSON() []string {
+	var out []string
+	for _, r := range s.GetJobHistory() {
+		b, _ := json.Marshal(r)
+		out = append(out, string(b))
+	}
+	sort.Strings(out)
+	return out
 }
